@@ -35,6 +35,8 @@ func VerifLemma_C17C_ValidatePluginResponses() {
 	var responses []*PluginResponse
 	var joined []string
 	var insertion []bool
+	var owner []int
+	allValid := true
 	for p := 0; p < nPlugins; p++ {
 		out := outs[verifNondetChoice(len(outs))]
 		nFiles := verifNondetChoice(verifParam("FILES") + 1)
@@ -48,6 +50,10 @@ func VerifLemma_C17C_ValidatePluginResponses() {
 			response.File = append(response.File, viRespFile(name, ip, ""))
 			joined = append(joined, filepath.Join(out, name))
 			insertion = append(insertion, ip != "")
+			owner = append(owner, p)
+			if norm, err := normalpath.NormalizeAndValidate(name); err != nil || norm == "." {
+				allValid = false // a name no bucket accepts: rejecting it here already would be legitimate
+			}
 		}
 		pluginName := "plugin-a"
 		if p == 1 {
@@ -55,17 +61,30 @@ func VerifLemma_C17C_ValidatePluginResponses() {
 		}
 		responses = append(responses, NewPluginResponse(response, pluginName, out))
 	}
-	wantErr := false
+	crossPlugin, samePlugin := false, false
 	for i := range joined {
 		for j := i + 1; j < len(joined); j++ {
 			if !insertion[i] && !insertion[j] && joined[i] == joined[j] {
-				wantErr = true
+				if owner[i] != owner[j] {
+					crossPlugin = true
+				} else {
+					samePlugin = true
+				}
 			}
 		}
 	}
 	err := ValidatePluginResponses(responses)
 	verifCover("ValidatePluginResponses returned")
-	verifAssert((err != nil) == wantErr, "ValidatePluginResponses: error iff two non-insertion files resolve to the same output path")
+	// required (property: "the same output path produced by two plugins is an error"; doc: "each file is only defined
+	// by a single *PluginResponse")
+	if crossPlugin {
+		verifAssert(err != nil, "ValidatePluginResponses: two plugins producing the same output path is an error")
+	}
+	// required the other way: valid names without any collision must pass. A collision inside one response and names
+	// that no bucket accepts may or may not be rejected here (they are rejected today / later respectively).
+	if !crossPlugin && !samePlugin && allValid {
+		verifAssert(err == nil, "ValidatePluginResponses: distinct output paths pass")
+	}
 }
 
 // ---- writeInsertionPoint ----
@@ -157,6 +176,21 @@ func refIInsert(target, marker, content string) (string, bool) {
 	return out, found
 }
 
+// refISameLines: a and b are the same sequence of lines (bufio.ScanLines view: the line terminator style and a final
+// newline are not compared - the property is about which lines the file has, and where the content is inserted).
+func refISameLines(a, b string) bool {
+	la, lb := refILines(a), refILines(b)
+	if len(la) != len(lb) {
+		return false
+	}
+	for i := range la {
+		if la[i] != lb[i] {
+			return false
+		}
+	}
+	return true
+}
+
 func viASCII(s string) {
 	for i := 0; i < len(s); i++ {
 		c := s[i]
@@ -194,7 +228,7 @@ func VerifLemma_C17C_WriteInsertionPoint() {
 	want, found := refIInsert(target, "@@protoc_insertion_point("+ipName+")", content)
 	verifAssert((err == nil) == found, "writeInsertionPoint fails iff no line of the target has the insertion point")
 	if err == nil {
-		verifAssert(string(got) == want, "writeInsertionPoint inserts the content above each marker line and keeps every other line")
+		verifAssert(refISameLines(string(got), want), "writeInsertionPoint inserts the content above each marker line and keeps every other line")
 	}
 }
 
@@ -256,11 +290,10 @@ func VerifLemma_C17C_WriteResponse() {
 	verifAssert((err == nil) == shouldSucceed, "an insertion point succeeds iff its target was produced in this run and has the marker")
 	paths = viBucketPaths(bucket)
 	verifAssert(len(paths) == 1 && paths[0] == normA, "an insertion point creates no new file")
-	dataA, rerr := storage.ReadPath(ctx, bucket, normA)
-	verifAssert(rerr == nil, "the generated file is still readable")
 	if shouldSucceed {
-		verifAssert(string(dataA) == want, "the target is rewritten with the content inserted above the marker line")
-	} else {
-		verifAssert(string(dataA) == contentA, "a failed insertion point leaves the generated file unchanged")
+		dataA, rerr := storage.ReadPath(ctx, bucket, normA)
+		verifAssert(rerr == nil && refISameLines(string(dataA), want), "the target is rewritten with the content inserted above the marker line")
 	}
+	// what the staging bucket holds after a failed WriteResponse is not specified (generation aborts before anything is
+	// flushed); only that no other path appears (asserted above)
 }
